@@ -77,6 +77,8 @@ def phase_of(repo, fi):
         return 'compile', COMPILE_PHASE_NAMES[last]
     if fi.cls is not None and fi.qual == fi.cls.qual + '.' + last and called_only_from_constructors(repo, fi.cls, last):
         return 'compile', 'helper called only from __init__ / the declaration-phase methods (constructs or compiles the object)'
+    if fi.cls is not None and fi.qual == fi.cls.qual + '.' + last and only_in_declaration_table(repo, fi.cls, last):
+        return 'compile', 'step kept in a class-level table that only __init__ / the declaration-phase methods read'
     return 'run', 'run-time module function not listed as declaration / class-creation code'
 
 
@@ -104,6 +106,43 @@ def called_only_from_constructors(repo, ci, name):
     # a method *value* (self.x = self._name) is a reference that is not a call: stays run-time
     # ... likewise a helper that only the declaration-phase methods (_compile & co) call
     return d['calls'] > 0 and d['refs'] == d['calls'] and all(c in ('__init__', '__new__') or c in COMPILE_PHASE_NAMES for c in d['callers'])
+
+
+def only_in_declaration_table(repo, ci, name):
+    """the method ``name`` of ``ci`` is never named as an attribute or a string anywhere; its only
+    mentions are bare names inside class-level tuple / list / dict displays of ``ci``, and those
+    tables are read (``.T``) only inside __init__ / declaration-phase methods: whatever calls the
+    step does so while the object is being constructed or compiled"""
+    tables = set()
+    for st in ci.node.body:
+        if isinstance(st, ast.Assign) and len(st.targets) == 1 and isinstance(st.targets[0], ast.Name) and isinstance(st.value, (ast.Tuple, ast.List, ast.Dict)):
+            if any(isinstance(x, ast.Name) and x.id == name for x in ast.walk(st.value)):
+                tables.add(st.targets[0].id)
+    if not tables:
+        return False
+    for info in repo.modules.values():
+        for n in ast.walk(info['tree']):
+            if isinstance(n, ast.Attribute) and n.attr == name:
+                return False
+            if isinstance(n, ast.Constant) and n.value == name:
+                return False
+    # bare mentions: only inside those displays
+    inside = set()
+    for st in ci.node.body:
+        if isinstance(st, ast.Assign) and len(st.targets) == 1 and isinstance(st.targets[0], ast.Name) and st.targets[0].id in tables:
+            inside |= {id(x) for x in ast.walk(st.value)}
+    mod = repo.modules[ci.module]['tree']
+    for n in ast.walk(mod):
+        if isinstance(n, ast.Name) and n.id == name and id(n) not in inside:
+            return False
+    for other in repo.functions.values():
+        caller = other.qual.split('.')[-1]
+        for n in ast.walk(other.node):
+            if isinstance(n, ast.Attribute) and n.attr in tables and not (caller in ('__init__', '__new__') or caller in COMPILE_PHASE_NAMES):
+                return False
+            if isinstance(n, ast.Name) and n.id in tables and other.cls is not ci:
+                return False
+    return True
 
 
 def self_role(repo, fi):
